@@ -192,5 +192,19 @@ CLAIMED['C02'] = dict(
     technique="TLA+ demand/pull model checked by TLC over all stage compositions; TLC-computed bounds replayed on real "
               "operator compositions at two source lengths; pull/yield traces validated by TLC",
     design="3/C02")
+CLAIMED['C03'] = dict(
+    text="Heap.tla is an object/heap model of the row-assembly idioms petl uses (deliver the source row itself, copy then "
+         "edit, private carry row with copies delivered): TLC checks the action property Immutable (no step changes the "
+         "content of a frozen object: source rows, and every row once delivered) and SourcesIntact, and must refute the two "
+         "defective idioms kept as negative tests (edit in place, reused row buffer). TLC generates every ragged table shape "
+         "(<= 3 rows, row lengths 0/2/4/5) x prefix length; for each, the driver runs the catalogue operators over sources "
+         "made of mutable lists, fully or partially, snapshotting identity and content digest of every tracked object (both "
+         "containers, headers, all source rows, every delivered row) after construction, after every next() and after "
+         "release; TLC validates every snapshot sequence against Immutable (HeapTrace).",
+    note="User callables are trusted not to mutate; digests are crc32 of repr; operators that reject a ragged shape are "
+         "checked up to the exception.",
+    technique="TLA+ heap/frame-condition model with negative tests checked by TLC; TLC-generated shapes; heap snapshot "
+              "traces of the real operators validated by TLC",
+    design="3/C03")
 
 NOT_APPLICABLE = {}
